@@ -17,5 +17,6 @@ CONSTANTS
   MaxSweep = 3
   MaxLeave = 1
   MaxPubB = 2
+  MaxCmd = 3
 INVARIANTS Quiescent QueueBound WholeUnits
 ACTION_CONSTRAINT EmitA
